@@ -1,6 +1,7 @@
 """C02 - canonical form: references equal iff functions equal; the
 stored diagram is reduced and ordered at every moment."""
 import itertools
+import os
 
 from vf import monitors
 from vf.common import Violation
@@ -45,6 +46,10 @@ def plan(tier, seed):
                           auto=(k % 3 == 2), dynamic=(k % 4 == 1 or
                                                       k % 6 == 2),
                           hashseed=k))
+    for k in range(24 if tier == 'thorough' else 4):
+        specs.append(dict(kind='json', sub=k,
+                          rounds=600 if tier == 'thorough' else 60,
+                          hashseed=k))
     # instances beyond truth tables (12-70 variables), see vf/big.py
     from vf import big
     specs.extend(big.specs(tier, seed, 'C02'))
@@ -53,7 +58,9 @@ def plan(tier, seed):
         require=['big_histories', 'route_results', 'all4_functions', 'steps',
                  'quiescent_checks', 'route_nodes', 'route_copy',
                  'route_pickle', 'route_expr', 'dynamic_histories',
-                 'built_through_autoref_find_or_add'],
+                 'built_through_autoref_find_or_add',
+                 'json_loads_into_reordering_manager',
+                 'json_loads_with_order', 'json_roots_compared'],
         assumptions=[
             'truth-table model in vf/oracle.py',
             'find_or_add is called by the harness only with children '
@@ -268,9 +275,104 @@ def _history(ctx, spec, rng, names, kind, reg, dynamic):
     ctx.guard('shutdown', w.finish)
 
 
+def json_loads(ctx, spec):
+    """Several roots over 5-9 variables written as JSON and loaded into a
+    dd.autoref manager on which dynamic reordering is enabled with a low
+    threshold (with and without the variable order of the file): the
+    receiving manager is reduced and ordered afterwards, and each loaded
+    root is the reference that a node-by-node construction of the same
+    function gives there."""
+    import dd.bdd as _b
+    rng = ctx.rng('json', spec['sub'])
+    starts0 = _b.REORDER_STARTS
+    try:
+        for rnd in range(spec['rounds']):
+            ok, _ = ctx.guard('json', _json_round, ctx, rng,
+                              case=dict(spec=spec, round=rnd))
+            if not ok:
+                break
+    finally:
+        _b.REORDER_STARTS = starts0
+        for f in os.listdir('.'):
+            if f.startswith(f'c02j{os.getpid()}'):
+                os.remove(f)
+
+
+def _json_round(ctx, rng):
+    import dd.bdd as _b
+    import dd.autoref as _a
+    import dd._copy as _c
+    n = rng.randint(5, 9)
+    names = [f'v{i}' for i in range(n)]
+    order = names[:]
+    rng.shuffle(order)
+    sp = Space(names)
+    _b.REORDER_STARTS = starts = rng.randint(3, 14)
+    src = _a.BDD({v: i for i, v in enumerate(order)})
+    tabs, hs = [], []
+    for _ in range(rng.randint(2, 6)):
+        sub = Space(sorted(rng.sample(names, rng.randint(1, 4))))
+        t = 0b10 if len(sub.names) == 1 and rng.random() < 0.7 else \
+            rng.getrandbits(sub.size)
+        t = sub.lift(t, sp)
+        tabs.append(t)
+        hs.append(_a.Function(build(src._bdd, t, sp), src))
+    as_dict = rng.random() < 0.5
+    roots = {f'r{i}': h for i, h in enumerate(hs)} if as_dict else list(hs)
+    fn = f'c02j{os.getpid()}.json'
+    _c.dump_json(roots, fn)
+    tgt = _a.BDD()
+    pre = rng.random() < 0.3
+    if pre:
+        # the same variables, declared beforehand in another order
+        other = names[:]
+        rng.shuffle(other)
+        tgt.declare(*other)
+    tgt.configure(reordering=True)
+    load_order = rng.random() < 0.6
+    info = dict(names=names, source_order=order, tables=[sp.fmt(t)
+                for t in tabs], load_order=load_order, as_dict=as_dict,
+                reorder_starts=starts, predeclared=pre)
+    try:
+        back = _c.load_json(fn, tgt, load_order=load_order)
+    finally:
+        os.remove(fn)
+    ctx.counters['json_loads_into_reordering_manager'] += 1
+    ctx.counters['json_loads_with_order'] += bool(load_order)
+    ctx.case(any(0 < t < sp.full for t in tabs), 'json', n, tuple(order),
+             tuple(tabs), load_order, pre, starts)
+    raw = tgt._bdd
+    try:
+        monitors.check_structure(raw)
+        monitors.check_order_maps(tgt)
+        monitors.check_canonicity(raw)
+    except Violation as v:
+        v.site = 'load-json'
+        v.detail = dict(info, detail=repr(v.detail)[:600])
+        raise
+    if dict(raw.vars) != dict(src._bdd.vars):
+        ctx.counters['json_loads_ending_in_another_order'] += 1
+    vals = list(back.values()) if as_dict else list(back)
+    if as_dict and list(back) != list(roots):
+        raise Violation('load-json', 'root-names-differ', info)
+    # (the reference construction below adds nodes to the raw manager,
+    # which asks for a reordering that only public entry points serve)
+    if not tgt.configure(reordering=False)['reordering']:
+        ctx.counters['json_loads_that_left_reordering_off'] += 1
+    for t, h in zip(tabs, vals):
+        want = build(raw, t, sp)
+        ctx.counters['json_roots_compared'] += 1
+        if h.node != want:
+            raise Violation('load-json', 'same-function-different-reference',
+                            dict(info, table=sp.fmt(t), loaded=h.node,
+                                 built=want, order=dict(raw.vars)))
+    del back, vals, roots, hs, h
+
+
 def run_shard(ctx, spec):
     if spec['kind'] == 'big':
         from vf import big
         return ctx.guard('big', big.run, ctx, spec, case=spec)
-    fn = dict(routes3=routes3, all4=all4, history=history)[spec['kind']]
+    fn = dict(routes3=routes3, all4=all4, history=history,
+              json=json_loads)[spec['kind']]
     ctx.guard(spec['kind'], fn, ctx, spec, case=spec)
